@@ -101,7 +101,32 @@ def regenerate_constants(log):
     if rc2 == 0:
         rc2, out2 = sh([exe, REPO, os.path.join(LEAN, "OnetVerif", "Shapes.lean")])
     log.append(out2)
+    # definitions translated from the Go source (`harness/cmd/go2lean` -> lean/OnetVerif/Gen/*.lean).  A function
+    # that cannot be translated any more is left out of its module; only the properties whose theorems
+    # refer to that module lose an obligation (see gen_problem), every other check is unaffected.
+    global GEN_OUT
+    exe = os.path.join(BUILD, "go2lean")
+    rc3, out3 = sh(["go", "build", "-o", exe, "./cmd/go2lean"], cwd=HARNESS, env=GOENV)
+    if rc3 == 0:
+        rc3, out3 = sh([exe, REPO, LEAN, os.path.join(VERIF, "meta", "go2lean.json")])
+    log.append(out3)
+    GEN_OUT = (rc3, out3)
     return rc2 == 0, out + out2
+
+
+GEN_OUT = (0, "")
+
+
+def gen_problem(prop):
+    """the translator's complaint, if it concerns a generated module this property's theorems import"""
+    rc, out = GEN_OUT
+    if rc == 0:
+        return None
+    mods = [m for m in lean_module_closure(prop) if m.startswith("OnetVerif.Gen.")]
+    hit = [m for m in mods if (m.replace(".", "/") + ".lean") in out]
+    if hit or (mods and "not translated" not in out):
+        return "translation of /repo's Go source to Lean failed: " + out[-600:]
+    return None
 
 
 # ------------------------------------------------------------------------------------------------
@@ -373,6 +398,9 @@ def main():
         names, discharged, problems, checker = proof_obligations(prop, tier, log)
         if not okc:
             problems.append("constant extraction from /repo failed: " + outc[-600:])
+        gp = gen_problem(prop)
+        if gp:
+            problems.append(gp)
         okh, outh = build_harness(prop, log)
     cases, stats, results, compared = [], {}, [], 0
     harness_problem = None
